@@ -37,7 +37,8 @@ func (v *ScriptView) writeCreateSQLForATable(
 		tableData += s
 	}
 	tableData = v.addConstraints(tableData, tableName, foreignKeyConstraints, primaryKeys)
-	tableData = strings.TrimSuffix(tableData, ",")
+	// the last column line ends with ",\n" when no constraint follows it
+	tableData = strings.TrimSuffix(strings.TrimRight(tableData, "\n"), ",")
 	v.stringBuilder.WriteString(tableData)
 	v.stringBuilder.WriteString("\n);\n")
 }
